@@ -82,7 +82,11 @@ func init() {
 		specs[prop] = &CheckSpec{Prop: prop, Level: "model_checking",
 			Jobs: func(tier string) []*Job {
 				if tier == "thorough" {
-					return evalJobs(prop, fam(tier), dt, wt, 2, append(keysQ, "é"))
+					js := evalJobs(prop, fam(tier), dt, wt, 2, append(keysQ, "é"))
+					for _, j := range js {
+						j.InnerKeys = []string{"a", "b"}
+					}
+					return js
 				}
 				return evalJobs(prop, fam(tier), dq, wq, 1, keysQ)
 			},
@@ -114,7 +118,7 @@ func init() {
 	outs := []string{"expressions outside the enumerated template family (only their integers and the documents are solver variables)",
 		"documents deeper / arrays longer / strings longer than the bounds", "Go-struct documents (C18)"}
 	mk("C01", familyCore, "CORE", 2, 2, 3, 3, "public Search on core-fragment templates vs. the specification evaluator, for every document and index in the bounds", outs)
-	mk2("C02", familyProj, "PROJ", 2, 2, 3, 2, "public Search on projection templates vs. the specification evaluator (object wildcards compared as multisets, every member order explored)", outs)
+	mk2("C02", familyProj, "PROJ", 2, 2, 2, 2, "public Search on projection templates vs. the specification evaluator (object wildcards compared as multisets, every member order explored)", outs)
 	mk2("C09", familyFunc, "FUNC", 2, 3, 2, 3, "every built-in on every argument tuple over two lazy document members and an expression reference, vs. the function specification (value and error-ness)", outs)
 	mk2("C10", familyFunc, "FUNC", 2, 3, 2, 3, "every built-in on every argument tuple incl. wrong arity and expression references: an ill-typed call must be an error, never a value, never a panic", outs)
 	specs["C10"].Panics = true
